@@ -363,7 +363,7 @@ class C17:
             for s, n, risk in [("x = '''a  \nb'''\n", "x = '''a\nb'''\n", "string-trailing-blank"), ("scp a b:c\n", "scp a bc\n", "colon-word"), ("echo a,b\n", "echo ab\n", "comma-word"), ("echo x==y\n", "echo xy\n", "operator-word"), ("with! ctxm:\n    raw  block  text\n", "with! ctxm:\n    raw block text\n", "block-macro-blank-run"), ("m = f'X{x  =}Y'\n", None, None),
                                ("s = 'page1\u2028page2'\n\nwith ctxm:\n        cmd0 | cmd1 -x\n", "s = 'page1-page2'\n\nwith ctxm:\n        cmd0 | cmd1 -x\n", "line-boundary-char")]:
                 self.run_case({"kind": "src", "src": s, "neutral": n, "risk": risk}, rec)
-        for i in range(sh["n"]):
+        for i in harness.budgeted(range(sh["n"]), rec):
             risk = rng.choice([None] * 6 + RISKS)
             g = Gen(rng, risk)
             a, b = g.source()
